@@ -202,6 +202,11 @@ class _SymEnv(dict):
         return SymName(k)
 
 
+def _is_member_ref(e: ast.AST, env: Dict[str, Any]) -> bool:
+    """Name.ATTR (one level) where Name is not a folded constant and ATTR is spelled like a constant member"""
+    return isinstance(e, ast.Attribute) and isinstance(e.value, ast.Name) and not dict.__contains__(env, e.value.id) and e.attr.isupper()
+
+
 def fold(node: ast.AST, env: Dict[str, Any]) -> Any:
     """Constant folding of literal expressions (the analyser's own evaluator)."""
     if isinstance(node, ast.Constant):
@@ -234,6 +239,9 @@ def fold(node: ast.AST, env: Dict[str, Any]) -> Any:
         for e in node.elts:
             if isinstance(e, ast.Starred):
                 items.extend(fold(e.value, env))
+            elif isinstance(e, ast.Attribute) and not isinstance(env, _SymEnv) and _is_member_ref(e, env):
+                # Enum.MEMBER inside a table of members: kept as a symbolic reference (compared by spelling)
+                items.append(fold(e, _SymEnv(env)))
             else:
                 items.append(fold(e, env))
         if isinstance(node, ast.Set):
